@@ -51,6 +51,8 @@ type Program struct {
 	RawID func(*ssa.Function) string
 	// Notes of the preparation step (renames followed, helpers expanded)
 	Notes []string
+	// RefFields: "pkg.Struct" → field names of the reference tree (nil without an anchor table)
+	RefFields map[string]map[string]bool
 }
 
 // Load loads ./... in dir. Any load or type error is returned as an error: an analysis that could
@@ -226,6 +228,37 @@ func (p *Program) OwnFunctions() []*ssa.Function {
 		}
 	}
 	sort.Slice(out, func(i, j int) bool { return out[i].String() < out[j].String() })
+	return out
+}
+
+// NewFields returns the fields of struct pkg.typ that do not exist in the reference tree (and are
+// not renames of reference fields): state added since the rule instances were confirmed.
+func (p *Program) NewFields(pkgPath, typ string) []*types.Var {
+	ref := p.RefFields[pkgPath+"."+typ]
+	if ref == nil {
+		return nil
+	}
+	n := p.Named(pkgPath, typ)
+	if n == nil {
+		return nil
+	}
+	st, ok := n.Underlying().(*types.Struct)
+	if !ok {
+		return nil
+	}
+	renamed := map[string]bool{}
+	if p.Renames != nil {
+		for _, cur := range p.Renames.FieldAlias[pkgPath+"."+typ] {
+			renamed[cur] = true
+		}
+	}
+	var out []*types.Var
+	for i := 0; i < st.NumFields(); i++ {
+		f := st.Field(i)
+		if !ref[f.Name()] && !renamed[f.Name()] {
+			out = append(out, f)
+		}
+	}
 	return out
 }
 
